@@ -149,6 +149,60 @@ func (l *Loop) RangeOperand() ssa.Value {
 	return nil
 }
 
+// VisitsEveryElement reports whether the loop, as far as its header shows, goes over all of its operand: a range
+// over a map, string or channel (Next), or a slice loop whose index starts at the first element and is stepped
+// by one (`for i := 0; i < len(x); i++`, or go/ssa's own lowering of `range x`, which starts at -1 and
+// increments before the test). A loop that starts at a remembered position does not.
+func (l *Loop) VisitsEveryElement() bool {
+	h := l.Header
+	for _, in := range h.Instrs {
+		if _, ok := in.(*ssa.Next); ok {
+			return true
+		}
+	}
+	iff, ok := h.Instrs[len(h.Instrs)-1].(*ssa.If)
+	if !ok {
+		return false
+	}
+	bo, ok := iff.Cond.(*ssa.BinOp)
+	if !ok || bo.Op != token.LSS {
+		return false
+	}
+	isInt := func(v ssa.Value, k int64) bool {
+		c, ok := v.(*ssa.Const)
+		return ok && c.Value != nil && c.Int64() == k
+	}
+	stepOf := func(v ssa.Value, phi *ssa.Phi) bool {
+		add, ok := v.(*ssa.BinOp)
+		return ok && add.Op == token.ADD && add.X == ssa.Value(phi) && isInt(add.Y, 1)
+	}
+	check := func(phi *ssa.Phi, start int64, idx ssa.Value) bool {
+		if phi.Block() != h {
+			return false
+		}
+		for i, pred := range h.Preds {
+			e := phi.Edges[i]
+			if l.Blocks[pred] {
+				if !stepOf(e, phi) {
+					return false
+				}
+			} else if !isInt(e, start) {
+				return false
+			}
+		}
+		return true
+	}
+	switch x := bo.X.(type) {
+	case *ssa.Phi:
+		return check(x, 0, x)
+	case *ssa.BinOp:
+		if phi, ok := x.X.(*ssa.Phi); ok && stepOf(x, phi) {
+			return check(phi, -1, x)
+		}
+	}
+	return false
+}
+
 // BodyEntry returns the successor of the header that lies inside the loop
 // (the first block of one iteration after the loop test).
 func (l *Loop) BodyEntry() *ssa.BasicBlock {
